@@ -119,7 +119,7 @@ CLAIMS = {
     'C09': dict(
         text='Coq theorems c09_total (every decorated reader on EVERY token list: success or the protocol error naming the method), c09_truncated / c09_truncated_table_* (every truncation inside fixed fields or inside a table descriptor), '
              'c09_wrong_marker(_tables), c09_non_integer(_tables), c09_unknown_mode, c09_unknown_platform (Props/C09.v) over the reference encoding of arbitrary well-formed requests. Reader model vs the real read_* functions on a malformed stream '
-             '(result and message compared), structural check that all 18 readers carry the decorator, and malformed-then-valid sequences through both real servers (no adapter call, no reply, one handler call / one FAL, service continues). Mode tokens: c09_mode_accepted_only_if_exact / c09_mode_unknown_rejected (accepted iff null / empty marker or exactly one mode code).',
+             '(result and message compared), behavioural check that each of the 18 readers turns any failure of its body into the protocol error naming its method, and malformed-then-valid sequences through both real servers (no adapter call, no reply, one handler call / one FAL, service continues). Mode tokens: c09_mode_accepted_only_if_exact / c09_mode_unknown_rejected (accepted iff null / empty marker or exactly one mode code).',
         ref='6 C09',
         note='int() modelled on ASCII tokens up to 4300 digits; the server-level clause is decided by the oracle on the real servers and by the Dispatch model (C10), not by a separate theorem here.',
         tech='Coq proof (case analysis over positions of symbolic token lists, induction over table lists) + differential check on a structured malformed stream + oracle through the real servers'),
